@@ -13,8 +13,9 @@ META = {
                  "checked by coqc on the real route table dumped from the real declarations on every run",
     "text": "Theorems over the model: C20_gate_partial (for every route whose flags satisfy the decidable safe_flags - not "
             "lightweight with a requirement, permissions imply must-authenticate - every credential outcome and every outcome "
-            "of the other checks: handler invoked -> authenticated when required, and authenticated with all required permissions "
-            "or administrator), C20_builder_partial (any order of builder calls without Authentication(false)/LightWeight(true) "
+            "of the other checks and every body (absent / valid / invalid for the route's payload validations): handler invoked -> "
+            "authenticated when required, and authenticated with all required permissions or administrator), "
+            "C20_rejected_not_invoked (a failed authentication or permission check is final whatever the body), C20_builder_partial (any order of builder calls without Authentication(false)/LightWeight(true) "
             "yields safe flags and keeps a requested authentication), C20_refuted / C20_refuted_perms_unauth / "
             "C20_builder_refuted (the unguarded claims are false: LightWeight(true).Authentication(true) runs the handler without "
             "credentials; Permissions(p).Authentication(false) runs it for a wrong password of a user holding p; "
@@ -39,21 +40,37 @@ CREDS = {
 }
 TOKEN_FORMS = {"goodtoken_alice", "goodtoken_bob", "goodtoken_admin"}
 
+VAL = ["ValidateUsing", "@credentials"]
+BODY = {"valid": "(Some true)", "invalid": "(Some false)", "empty": "(Some false)", "absent": "None"}
 CORPUS = [
-    ([["LightWeight", True], ["Authentication", True]], "none"),
-    ([["Authentication", True], ["LightWeight", True]], "none"),
-    ([["Permissions", ["ego.root"]], ["Authentication", False]], "badbasic_admin"),
-    ([["Permissions", ["p1"]], ["Authentication", False]], "badbasic_alice"),
-    ([["Permissions", []], ["LightWeight", True]], "none"),
-    ([["Permissions", ["p1"]], ["LightWeight", True]], "goodbasic_alice"),
-    ([["Permissions", ["p1", "p2"]]], "goodbasic_alice"),
-    ([["Permissions", ["p1", "p3"]]], "goodtoken_alice"),
-    ([["Permissions", ["p3"]]], "goodbasic_admin"),
-    ([["Permissions", ["p1"]], ["CanAuthenticate", True]], "none"),
-    ([["Authentication", True], ["CanAuthenticate", True]], "tamperedtoken"),
-    ([["LightWeight", True], ["Authentication", True], ["CanAuthenticate", True]], "none"),
-    ([["LightWeight", False]], "none"),
-    ([], "none"),
+    ([["LightWeight", True], ["Authentication", True]], "none", "empty"),
+    ([["Authentication", True], ["LightWeight", True]], "none", "empty"),
+    ([["Permissions", ["ego.root"]], ["Authentication", False]], "badbasic_admin", "empty"),
+    ([["Permissions", ["p1"]], ["Authentication", False]], "badbasic_alice", "empty"),
+    ([["Permissions", []], ["LightWeight", True]], "none", "empty"),
+    ([["Permissions", ["p1"]], ["LightWeight", True]], "goodbasic_alice", "empty"),
+    ([["Permissions", ["p1", "p2"]]], "goodbasic_alice", "empty"),
+    ([["Permissions", ["p1", "p3"]]], "goodtoken_alice", "empty"),
+    ([["Permissions", ["p3"]]], "goodbasic_admin", "empty"),
+    ([["Permissions", ["p1"]], ["CanAuthenticate", True]], "none", "empty"),
+    ([["Authentication", True], ["CanAuthenticate", True]], "tamperedtoken", "empty"),
+    ([["LightWeight", True], ["Authentication", True], ["CanAuthenticate", True]], "none", "empty"),
+    ([["LightWeight", False]], "none", "empty"),
+    ([], "none", "empty"),
+    # payload validations: a valid body must not undo an earlier rejection (seeded change C20-2)
+    ([["Permissions", ["p3"]], VAL], "goodbasic_alice", "valid"),
+    ([["Permissions", ["p3"]], VAL], "goodtoken_bob", "valid"),
+    ([VAL, ["Permissions", ["p1", "p3"]]], "goodtoken_alice", "valid"),
+    ([["Permissions", ["p1"]], VAL], "goodtoken_alice", "valid"),
+    ([["Permissions", ["p1"]], VAL], "goodtoken_alice", "invalid"),
+    ([["Permissions", ["p1"]], VAL], "goodtoken_alice", "absent"),
+    ([["Permissions", ["p1"]], VAL], "goodtoken_alice", "empty"),
+    ([["Authentication", True], VAL], "none", "valid"),
+    ([["Authentication", True], VAL], "tamperedtoken", "valid"),
+    ([["Permissions", ["p1"]], VAL, ["CanAuthenticate", True]], "none", "valid"),
+    ([VAL], "none", "valid"),
+    ([VAL], "none", "invalid"),
+    ([["Permissions", ["p3"]], VAL], "locked_carol", "valid"),
 ]
 
 
@@ -61,7 +78,7 @@ def call_pool(rng):
     perms = ["p1", "p2", "p3", "ego.root"]
     k = rng.choice([0, 1, 1, 1, 2, 2, 3])
     return [["Authentication", True], ["Authentication", False], ["LightWeight", True], ["LightWeight", False],
-            ["CanAuthenticate", True], ["CanAuthenticate", False], ["Permissions", rng.sample(perms, k)],
+            ["CanAuthenticate", True], ["CanAuthenticate", False], VAL, VAL, ["Permissions", rng.sample(perms, k)],
             ["Permissions", rng.sample(perms, rng.choice([1, 2]))]]
 
 
@@ -76,7 +93,12 @@ def gen_cases(rng, n):
         orders = list(itertools.permutations(calls))
         rng.shuffle(orders)
         for o in orders[:6]:
-            out.append((list(o), rng.choice(forms)))
+            has_val = any(c[0] == "ValidateUsing" for c in o)
+            body = rng.choice(["valid", "valid", "valid", "invalid", "empty", "absent"]) if has_val else rng.choice(["empty", "empty", "valid", "absent"])
+            form = rng.choice(forms)
+            if has_val and rng.random() < 0.5:      # authenticated callers lacking permissions are the interesting ones
+                form = rng.choice(["goodtoken_alice", "goodtoken_bob", "goodbasic_bob", "goodtoken_alice", "goodtoken_admin"])
+            out.append((list(o), form, body))
     return out[:n]
 
 
@@ -177,6 +199,8 @@ def unsafe_chain(calls):
 
 
 def ccall(c):
+    if c[0] == "ValidateUsing":
+        return "ValidateUsing"
     if c[0] == "Permissions":
         return "Permissions [%s]%%N" % ";".join(str(PERM_ID[p]) for p in c[1])
     return "%s %s" % (c[0], "true" if c[1] else "false")
@@ -194,7 +218,8 @@ def ccred(form, users):
 def run(ck):
     quick = ck.tier == "quick"
     ck.cov["rule"] = ("declarations = up to 6 orders of a random multiset of 1-4 builder calls (Authentication t/f, LightWeight t/f, "
-                      "CanAuthenticate t/f, Permissions over {p1,p2,p3,ego.root} incl. empty) x one of %d credential forms "
+                      "CanAuthenticate t/f, ValidateUsing, Permissions over {p1,p2,p3,ego.root} incl. empty) x a body (valid / invalid / "
+                      "empty / no body reader) x one of %d credential forms "
                       "(%s); plus every route of the real table x all credential forms is covered by safe_flags + the theorem. "
                       "distinct_nontrivial = distinct (flags, credential form) pairs reached in which the route declares a "
                       "requirement (must-authenticate or permissions)" % (len(CREDS), ", ".join(sorted(CREDS))))
@@ -203,7 +228,8 @@ def run(ck):
               "media-type, parameter, paging and payload checks are two booleans (they can only prevent the handler from running)",
               "the real route table is the one built by defineStaticRoutes + defineNativeAdminHandlers with default settings")
     ck.trusted("harness/C20/gate_test.go, harness/C32/router_dump.go, harness/C32/table_test.go (overlays), props/C20.py")
-    thms = ["C20_refuted", "C20_refuted_perms_unauth", "C20_gate_partial", "C20_builder_partial", "C20_builder_refuted"]
+    thms = ["C20_refuted", "C20_refuted_perms_unauth", "C20_gate_partial", "C20_rejected_not_invoked", "C20_builder_partial",
+            "C20_builder_refuted"]
     coq_ok = ck.coq_stage(GROUP, theorems=thms)
 
     ok, binp = vf.go_test_build(ck.work, "internal/router",
@@ -214,9 +240,9 @@ def run(ck):
         return
     if ck.replay_file:
         rp = json.load(open(ck.replay_file))["replay"]
-        cases = [(rp["calls"], rp["cred"])] if "calls" in rp else CORPUS
+        cases = [(rp["calls"], rp["cred"], rp.get("body", "empty"))] if "calls" in rp else list(CORPUS)
     else:
-        cases = CORPUS + gen_cases(ck.rng, 420 if quick else 6000)
+        cases = list(CORPUS) + gen_cases(ck.rng, 420 if quick else 6000)
     # real declarations (source scan): every chain that mixes a requirement with a withdrawing call is also driven
     decls = [] if ck.replay_file else scan_declarations(vf.REPO)
     decl_cases = {}
@@ -224,14 +250,14 @@ def run(ck):
         for v in chain_variants(chain):
             if unsafe_chain(v):
                 decl_cases[len(cases)] = (fn, line)
-                cases.append((v, "none"))
+                cases.append((v, "none", "empty"))
     if not ck.replay_file and len(decls) < 20:
         ck.violation("declaration-scan", "only %d route declarations with builder calls were found in the sources (anchors lost?)" % len(decls),
                      replay={"found": len(decls)}, found_input=False)
     ck.cov["real_declarations_scanned"] = len(decls)
     env = vf.ego_env(ck.work)
     inp, outp = os.path.join(ck.work, "gin.json"), os.path.join(ck.work, "gout.json")
-    json.dump({"cases": [{"calls": c, "cred": f} for c, f in cases]}, open(inp, "w"))
+    json.dump({"cases": [{"calls": c, "cred": f, "body": b} for c, f, b in cases]}, open(inp, "w"))
     rc, log = vf.run_bin(binp, "^TestVerifGate$", {"VERIF_IN": inp, "VERIF_OUT": outp, "HOME": env["HOME"], "TMPDIR": env["TMPDIR"]})
     if rc != 0:
         ck.violation("harness-run", "gate harness failed:\n" + log[-1500:], replay={"log": log[-3000:]}, found_input=False)
@@ -251,13 +277,13 @@ def run(ck):
                      "must=%s light=%s perms=%r; a request without credentials %s its handler" % (
                          fn, line, calls, r["must"], r["light"], r["perms"], "REACHES" if r["invoked"] else "does not reach"),
                      replay={"calls": calls, "cred": "none", "real": r, "declaration": "%s:%d" % (fn, line)}, found_input=r["invoked"])
-    for (calls, form), r in zip(cases, res):
+    for (calls, form, body), r in zip(cases, res):
         l, a, ad, user = CREDS[form]
         uperms = set(users.get(user, [])) if user else set()
-        rep = {"calls": calls, "cred": form, "real": r}
+        rep = {"calls": calls, "cred": form, "body": body, "real": r}
         declared = r["must"] or r["perms"] is not None
         if declared:
-            nontriv.add(json.dumps([r["must"], r["can"], r["light"], r["perms"], form]))
+            nontriv.add(json.dumps([r["must"], r["can"], r["light"], r["perms"], r["valid"], form, body]))
         hist[form] = hist.get(form, 0) + 1
         if r["invoked"]:
             if r["must"] and not a:
@@ -267,8 +293,8 @@ def run(ck):
             elif r["perms"] and not (a and (ad or set(r["perms"]) <= uperms)):
                 sig = ("gate:lightweight-permissions" if r["light"] else
                        "gate:permissions-without-authentication" if not r["must"] else "gate:permission-check-bypassed")
-                ck.violation(sig, "handler ran for credential form %s (authenticated=%d, holds %r) although the route %r requires %r" % (
-                    form, a, sorted(uperms), calls, r["perms"]), replay=rep)
+                ck.violation(sig, "handler ran for credential form %s (authenticated=%d, holds %r; body %s) although the route %r requires %r" % (
+                    form, a, sorted(uperms), body, calls, r["perms"]), replay=rep)
         # builder: a requested authentication that no later Authentication(false) withdrew must survive
         req_idx = [i for i, c in enumerate(calls) if c[0] == "Permissions" or (c[0] == "Authentication" and c[1])]
         if req_idx and not r["must"]:
@@ -281,39 +307,40 @@ def run(ck):
     # ---------------------------------------------------------------- correspondence with the model
     if coq_ok:
         pre = ["From Common Require Import Base.", "From Gate Require Import Model.", "Open Scope N_scope.",
-               "Definition cases : list (list call * cred) := ["]
-        pre.append(";\n".join("([%s], %s)" % (";".join(ccall(c) for c in calls), ccred(form, users)) for calls, form in cases))
+               "Definition cases : list (list call * cred * option bool) := ["]
+        pre.append(";\n".join("([%s], %s, %s)" % (";".join(ccall(c) for c in calls), ccred(form, users), BODY[body])
+                              for calls, form, body in cases))
         pre.append("""].
 Definition b2n (b : bool) : N := if b then 1 else 0.
-Definition one (c : list call * cred) : list N :=
-  let f := build (fst c) in
-  [b2n (must_auth f); b2n (can_auth f); b2n (lightweight f); b2n (safe_flags f);
-   match serve f (snd c) (fun _ => false) true true with Invoked => 1 | Status n => n end;
+Definition one (c : list call * cred * option bool) : list N :=
+  let f := build (fst (fst c)) in
+  [b2n (must_auth f); b2n (can_auth f); b2n (lightweight f); b2n (valid f);
+   match serve f (snd (fst c)) (fun _ => false) true true (snd c) with Invoked => 1 | Status n => n end;
    match perms f with None => 0 | Some l => 1 + N.of_nat (length l) end] ++ match perms f with None => [] | Some l => l end.""")
         okc, out = vf.coq_eval(GROUP, ck.work, "gcases", "\n".join(pre), {"R": "flat_map one cases"})
         if not okc:
             ck.violation("correspondence-eval", "model evaluation failed:\n" + out[-1500:], replay={"log": out[-3000:]}, found_input=False)
         else:
             flat, i, bad = out["R"], 0, 0
-            for (calls, form), r in zip(cases, res):
-                must, can, light, safe, resp, np_ = flat[i:i + 6]
+            for (calls, form, body), r in zip(cases, res):
+                must, can, light, vald, resp, np_ = flat[i:i + 6]
                 mp = None if np_ == 0 else flat[i + 6:i + 5 + np_]
                 i += 6 + (0 if np_ == 0 else np_ - 1)
                 rp_ = None if r["perms"] is None else [PERM_ID[p] for p in r["perms"]]
                 rresp = 1 if r["invoked"] else r["status"]
-                if [must, can, light] != [int(r["must"]), int(r["can"]), int(r["light"])] or mp != rp_ or resp != rresp:
+                if [must, can, light, vald] != [int(r["must"]), int(r["can"]), int(r["light"]), int(r["valid"])] or mp != rp_ or resp != rresp:
                     bad += 1
                     if bad <= 3 and not any(v["found_input"] and v["signature"].split(":")[0] in ("gate", "builder") and
                                             not vf.match_known(ck.known, ck.pid, v["signature"]) for v in ck.viol):
-                        ck.violation("corr-gate", "model/implementation disagree on %r with %s: real flags %r perms %r response %r, "
-                                     "model flags %r perms %r response %r" % (calls, form, [r["must"], r["can"], r["light"]], rp_, rresp,
-                                                                              [must, can, light], mp, resp),
-                                     replay={"calls": calls, "cred": form, "real": r}, found_input=False)
+                        ck.violation("corr-gate", "model/implementation disagree on %r with %s, body %s: real flags %r perms %r response %r, "
+                                     "model flags %r perms %r response %r" % (calls, form, body, [r["must"], r["can"], r["light"], r["valid"]],
+                                                                              rp_, rresp, [must, can, light, vald], mp, resp),
+                                     replay={"calls": calls, "cred": form, "body": body, "real": r}, found_input=False)
             ck.cov["traces_validated_against_impl"] = len(cases) - bad
 
     # ---------------------------------------------------------------- the real table satisfies safe_flags
     H = os.path.join(vf.HARNESS, "C32")
-    ntab = 0
+    ntab = nreal = 0
     if not ck.replay_file:
         ok, binc = vf.go_test_build(ck.work, "internal/commands",
                                     {"internal/router/zz_verif_dump.go": os.path.join(H, "router_dump.go"),
@@ -331,7 +358,8 @@ Definition one (c : list call * cred) : list N :=
                     f = line.split()
                     n = int(f[6])
                     table.append({"endpoint": bytes.fromhex(f[1]).decode(), "method": f[2], "must": f[3] == "1", "can": f[4] == "1",
-                                  "light": f[5] == "1", "perms": [bytes.fromhex(x).decode() for x in f[7:7 + n]]})
+                                  "light": f[5] == "1", "perms": [bytes.fromhex(x).decode() for x in f[7:7 + n]],
+                                  "valid": f[-1].startswith("V") and f[-1] != "V0"})
             ntab = len(table)
             if rc != 0 or ntab < 10:
                 ck.violation("table-dump", "the real route table could not be dumped (%d routes):\n%s" % (ntab, log[-1200:]),
@@ -356,15 +384,15 @@ Definition one (c : list call * cred) : list N :=
                     b = lambda x: "true" if x else "false"
                     # the dumper prints an empty list for both nil and []: treat "no permissions" as nil only when must=false,
                     # which is the less favourable reading for safe_flags on lightweight routes (Some [] is unsafe there)
-                    rows = ";\n".join("mkFlags %s %s %s %s" % (b(t["must"]), b(t["can"]), b(t["light"]),
-                                      ("(Some [%s]%%N)" % ";".join(str(ids[p]) for p in t["perms"])) if t["perms"] else "None")
-                                      for t in table)
+                    rows = ";\n".join("mkFlags %s %s %s %s %s" % (b(t["must"]), b(t["can"]), b(t["light"]),
+                                      ("(Some [%s]%%N)" % ";".join(str(ids[p]) for p in t["perms"])) if t["perms"] else "None",
+                                      b(t["valid"])) for t in table)
                     src = ("From Common Require Import Base.\nFrom Gate Require Import Model Proofs Properties.\nOpen Scope N_scope.\n"
                            "Definition real_routes : list flags := [\n%s].\n"
                            "Theorem C20_real_table : forallb safe_flags real_routes = true.\nProof. vm_compute. reflexivity. Qed.\n"
-                           "Theorem C20_real_routes_gated : forall f c l m p, In f real_routes -> wf_cred c -> serve f c l m p = Invoked ->\n"
+                           "Theorem C20_real_routes_gated : forall f c l m p body, In f real_routes -> wf_cred c -> serve f c l m p body = Invoked ->\n"
                            "  (must_auth f = true -> authed c = true) /\\ (forall ps, perms f = Some ps -> authed c = true /\\ (admin c = true \\/ forallb (granted c) ps = true)).\n"
-                           "Proof. intros f c l m p Hin. apply C20_gate_partial. exact (proj1 (forallb_forall _ _) C20_real_table f Hin). Qed.\n"
+                           "Proof. intros f c l m p body Hin. apply C20_gate_partial. exact (proj1 (forallb_forall _ _) C20_real_table f Hin). Qed.\n"
                            "Print Assumptions C20_real_routes_gated.\n" % rows)
                     rc, out = vf.coq_run(GROUP, ck.work, "RealGate", src)
                     ck.add_obligations(2, 2 if rc == 0 else 0)
@@ -373,19 +401,47 @@ Definition one (c : list call * cred) : list N :=
                                      replay={"log": out[-3000:]}, found_input=False)
                     elif rc == 0:
                         ck.trusted("generated C20_real_table / C20_real_routes_gated: " + ("Closed under the global context" if "Closed under" in out else out[-300:]))
+                # every real route through the real ServeHTTP with recording handlers: none / authenticated non-privileged / root,
+                # valid and invalid bodies for the routes that validate their payload
+                rg = os.path.join(ck.work, "realgate.json")
+                rc, log = vf.run_bin(binc, "^TestVerifRealGate$", dict(e2, VERIF_OUT=rg))
+                if rc != 0:
+                    ck.violation("harness-run", "real-route gate driver failed:\n" + log[-1500:], replay={"log": log[-3000:]}, found_input=False)
+                else:
+                    rows_ = json.load(open(rg))
+                    nreal = len(rows_)
+                    root_ok = sum(1 for x in rows_ if x["cred"] == "root" and x["invoked"])
+                    with_val = sum(1 for x in rows_ if x["nvalid"] and x["bodyvalid"] and x["cred"] == "norm")
+                    for x in rows_:
+                        authed, admin_ = x["cred"] != "none", x["cred"] == "root"
+                        holds = {"ego.logon"} if x["cred"] == "norm" else set()
+                        if x["nvalid"]:
+                            nontriv.add(json.dumps(["real", x["method"], x["endpoint"], x["cred"], x["body"]]))
+                        if x["invoked"] and ((x["must"] and not authed) or
+                                             (x["perms"] and not (authed and (admin_ or set(x["perms"]) <= holds)))):
+                            ck.violation("real-route-gate:%s %s" % (x["method"], x["endpoint"]),
+                                         "real route %s %s (must=%s, perms=%r, %d validations) ran its handler for caller '%s' with a %s body" % (
+                                             x["method"], x["endpoint"], x["must"], x["perms"], x["nvalid"], x["cred"], x["body"]),
+                                         replay={"real_route": x})
+                    if root_ok < ntab or with_val < 3:
+                        ck.violation("real-gate-ineffective", "the real-route driver no longer reaches the handlers (root reached %d of %d routes; "
+                                     "%d validated routes driven with a valid body)" % (root_ok, ntab, with_val), replay={"rows": rows_[:20]},
+                                     found_input=False)
+                    ck.cov["real_routes_driven"] = {"requests": nreal, "handler_reached_by_root": root_ok,
+                                                    "validated_routes_x_valid_body_nonprivileged": with_val}
                 ck.cov["real_table"] = {"routes": ntab, "lightweight": sum(t["light"] for t in table),
                                         "must_authenticate": sum(t["must"] for t in table),
                                         "with_permissions": sum(bool(t["perms"]) for t in table)}
 
-    ck.cov["evaluations"] = len(cases) + ntab
+    ck.cov["evaluations"] = len(cases) + ntab + nreal
     ck.cov["distinct_nontrivial"] = len(nontriv)
     ck.cov["input_distribution"] = {"declarations_x_credentials": len(cases), "per_credential_form": hist,
                                     "handler_invoked": sum(1 for r in res if r["invoked"]),
                                     "status_403": sum(1 for r in res if r["status"] == 403 and not r["invoked"]),
                                     "status_401": sum(1 for r in res if r["status"] == 401),
                                     "status_429": sum(1 for r in res if r["status"] == 429), "real_table_routes": ntab}
-    for (calls, form), r in list(zip(cases, res))[:4]:
-        ck.sample({"calls": calls, "cred": form, "real": r})
+    for (calls, form, body), r in list(zip(cases, res))[:3] + list(zip(cases, res))[14:16]:
+        ck.sample({"calls": calls, "cred": form, "body": body, "real": r})
     if not coq_ok and not any(v["found_input"] and not vf.match_known(ck.known, ck.pid, v["signature"]) for v in ck.viol):
         grp, log = ck.coq_broken
         ck.violation("proof-broken", "Coq development %s no longer checks (theorems %s):\n%s" % (grp, ", ".join(thms), log[-1200:]),
